@@ -97,6 +97,82 @@ def gen_fit_case(rng, quick, force=None):
     return dict(part="F", d=d, kind=kind, gridmode=gridmode, D=D, G=G, w=w, cell=cell, kw=kw, Q=Q)
 
 
+# ------------------------------------------------------------------------------ custom metrics
+# Legal replacements of the default `metric=` of SparseKDE: callables (X, Y, squared=..., cell_length=...)
+# returning the (n_X, n_Y) matrix of (squared) distances.  A spec is JSON data so that replays carry it.
+#   scaled  d2 = sum_k (s_k v_k)^2                      v = X_i - Y_j, wrapped into the cell if there is one
+#   maha    d2 = v^T M v, M a fixed SPD matrix
+#   perm    the default metric called on consistently permuted coordinates (and cell): same values
+def gen_metric(rng, d):
+    kind = rng.choice(["scaled", "scaled", "maha", "perm"])
+    if kind == "scaled":
+        sc = [rng.choice([1, 1, 2, 3, 6]) for _ in range(d)]
+        if d >= 2 and len(set(sc)) == 1:
+            sc[rng.randrange(d)] = 6 if sc[0] != 6 else 1
+        return dict(kind="scaled", scale=sc)
+    if kind == "maha":
+        L = [[(rng.randint(1, 3) if i == j else (rng.randint(-2, 2) if j < i else 0)) for j in range(d)]
+             for i in range(d)]
+        M = [[sum(L[i][k] * L[j][k] for k in range(d)) for j in range(d)] for i in range(d)]
+        return dict(kind="maha", M=M)
+    perm = list(range(d))
+    rng.shuffle(perm)
+    return dict(kind="perm", perm=perm)
+
+
+def make_metric(spec, counter=None):
+    def metric(X, Y, squared=False, cell_length=None):
+        if counter is not None:
+            counter[0] += 1
+        X = np.asarray(X, dtype=float)
+        Y = np.asarray(Y, dtype=float)
+        if spec["kind"] == "perm":
+            from skmatter.metrics import periodic_pairwise_euclidean_distances as ppe
+            pm = list(spec["perm"])
+            c = None if cell_length is None else np.asarray(cell_length, dtype=float)[pm]
+            return ppe(X[:, pm], Y[:, pm], squared=squared, cell_length=c)
+        v = X[:, None, :] - Y[None, :, :]
+        if cell_length is not None:
+            c = np.asarray(cell_length, dtype=float)
+            v = v - np.round(v / c) * c
+        if spec["kind"] == "scaled":
+            d2 = np.sum((v * np.asarray(spec["scale"], dtype=float)) ** 2, axis=-1)
+        else:
+            d2 = np.einsum("ijk,kl,ijl->ij", v, np.asarray(spec["M"], dtype=float), v)
+        return d2 if squared else np.sqrt(d2)
+    return metric
+
+
+def metric_exact(spec, cell, p, g):
+    """the squared distance of the spec'd metric (None = default) in exact rational arithmetic;
+    np.round = round half to even"""
+    from fractions import Fraction as Fr
+    v = []
+    for k in range(len(p)):
+        dl = Fr(p[k]) - Fr(g[k])
+        if cell is not None:
+            c = Fr(cell[k])
+            q = dl / c
+            f = q.numerator // q.denominator
+            r = q - f
+            m = f if r < Fr(1, 2) else (f + 1 if r > Fr(1, 2) else (f if f % 2 == 0 else f + 1))
+            dl -= m * c
+        v.append(dl)
+    if spec is None or spec["kind"] == "perm":
+        return sum((x * x for x in v), Fr(0))
+    if spec["kind"] == "scaled":
+        return sum(((Fr(sk) * x) ** 2 for sk, x in zip(spec["scale"], v)), Fr(0))
+    M = spec["M"]
+    return sum((v[i] * Fr(M[i][j]) * v[j] for i in range(len(v)) for j in range(len(v))), Fr(0))
+
+
+def _metric_kwargs(case, cell, counter=None):
+    kw = dict(metric_params=None if cell is None else {"cell_length": cell})
+    if case.get("metric"):
+        kw["metric"] = make_metric(case["metric"], counter)
+    return kw
+
+
 # ------------------------------------------------------------------------------ implementation
 def _arrays(case):
     d = case["d"]
@@ -120,8 +196,12 @@ def fit_impl(case, timeout=10, record=True, est=None):
     orig_lp, orig_bw = M._local_population, SparseKDE._bandwidth_estimation_from_localization
     orig_cov, orig_eff = M._covariance, M.effdim
 
-    def lp(cell_, gj, gi, wj, s2):
-        wl, num = orig_lp(cell_, gj, gi, wj, s2)
+    def lp(*a, **k):
+        # signature-agnostic (a private helper): sigma_squared is the last scalar argument
+        wl, num = orig_lp(*a, **k)
+        s2 = k.get("sigma_squared")
+        if s2 is None:
+            s2 = next((x for x in reversed(a) if x is not None and np.ndim(x) == 0), float("nan"))
         rec["locpop"].append((float(s2), float(num)))
         return wl, num
 
@@ -161,7 +241,9 @@ def fit_impl(case, timeout=10, record=True, est=None):
             M._local_population, M._covariance, M.effdim = lp, cov_, eff_
             SparseKDE._bandwidth_estimation_from_localization = bw
         if given is None:
-            est = SparseKDE(D, w, metric_params=None if cell is None else {"cell_length": cell}, **case["kw"])
+            counter = [0]
+            est = SparseKDE(D, w, **_metric_kwargs(case, cell, counter), **case["kw"])
+            rec["metric_calls"] = counter
         signal.alarm(timeout)
         est.fit(G)
         signal.alarm(0)
@@ -177,6 +259,8 @@ def fit_impl(case, timeout=10, record=True, est=None):
         signal.signal(signal.SIGALRM, old)
         M._local_population, M._covariance, M.effdim = orig_lp, orig_cov, orig_eff
         SparseKDE._bandwidth_estimation_from_localization = orig_bw
+    if isinstance(rec.get("metric_calls"), list):
+        rec["metric_calls"] = rec["metric_calls"][0]
     if est is not None:
         rec["bandwidth"] = np.array(est.bandwidth_).tolist()
         rec["W"] = [float(x) for x in est._sample_weights]
@@ -381,8 +465,12 @@ def is_descriptor(case, x):
 def assignment_ties(case):
     """some descriptor is equidistant (exactly) from its two nearest grid points"""
     D, G, Q, w, cell = _arrays(case)
-    for p in D:
-        ds = sorted(float(np.sum(pbc_delta(p, g, cell) ** 2)) for g in G)
+    if case.get("metric"):
+        rows = np.asarray(make_metric(case["metric"])(D, G, squared=True, cell_length=cell), dtype=float)
+    else:
+        rows = [[float(np.sum(pbc_delta(p, g, cell) ** 2)) for g in G] for p in D]
+    for r in rows:
+        ds = sorted(float(x) for x in r)
         if len(ds) > 1 and ds[1] - ds[0] <= 1e-12 * (1 + ds[1]):
             return True
     return False
@@ -428,7 +516,7 @@ def predicted_nontermination(case, W):
 def grid_weights_only(case):
     from skmatter.neighbors import SparseKDE
     D, G, Q, w, cell = _arrays(case)
-    est = SparseKDE(D, w, metric_params=None if cell is None else {"cell_length": cell}, **case["kw"])
+    est = SparseKDE(D, w, **_metric_kwargs(case, cell), **case["kw"])
     return [float(x) for x in est._assign_descriptors_to_grids(G)[3]]
 
 
@@ -662,26 +750,16 @@ def oracle_state(case, rec, tol=1e-9):
         return "number of labels differs from the number of descriptors"
 
     def dist(p, g):
-        t = Fr(0)
-        for k in range(len(p)):
-            dl = Fr(p[k]) - Fr(g[k])
-            if cell is not None:
-                c = Fr(cell[k])
-                q = dl / c
-                f = q.numerator // q.denominator
-                r = q - f
-                m = f if r < Fr(1, 2) else (f + 1 if r > Fr(1, 2) else (f if f % 2 == 0 else f + 1))
-                dl -= m * c
-            t += dl * dl
-        return t
+        return metric_exact(case.get("metric"), cell, p, g)
     for i in range(n):
         row = [dist(D[i], g) for g in G]
         j = lab[i]
         if not (0 <= j < ng):
             return "descriptor %d has label %d outside the grid" % (i, j)
         if float(row[j] - min(row)) > tol * (1 + float(min(row))):
-            return "descriptor %d assigned to grid point %d at squared distance %.12g, nearest is at %.12g" % (
-                i, j, float(row[j]), float(min(row)))
+            return "descriptor %d assigned to grid point %d at squared distance %.12g%s, nearest is at %.12g" % (
+                i, j, float(row[j]), " under the chosen metric %s" % case["metric"] if case.get("metric") else "",
+                float(min(row)))
     if len(rec["members"]) != ng or len(rec["W"]) != ng:
         return "member lists / grid weights do not have one entry per grid point"
     for j in range(ng):
